@@ -133,9 +133,8 @@ func genDBody(r *rnd, depth int, n *int) DBody {
 			}
 			nb := genDBody(r, depth+1, n)
 			it.Body = &nb
-			if r.chance(1, 14) {
+			if r.chance(1, 6) {
 				// single-line block: at most one attribute, no comments inside
-				// (rare: editing inside one is known finding F3)
 				it.OneLine = true
 				var ob DBody
 				if r.chance(2, 3) {
